@@ -374,4 +374,462 @@ theorem call_frame (c : TCtx) (n : Net) (m : Mem) :
   · simp [frame, b1, b2, b3]
   · simp [frame, c1, c2, c3]
 
+/-! ### C07.iii — traffic routing converges (no oscillation, bounded number of rounds) -/
+
+/-- the network after one more `DoTrafficRouting` round (the grace memory plays no part in this call) -/
+def stepNet (c : TCtx) (n : Net) : Net := (doTrafficRouting c n Mem.empty).net
+
+/-- `k` further rounds -/
+def iterNet (c : TCtx) : Nat → Net → Net
+  | 0, n => n
+  | k + 1, n => iterNet c k (stepNet c n)
+
+/-- the Services are in place: the Service part of the call finds nothing to do -/
+def SvcOk (c : TCtx) (n : Net) : Prop := svcStep c n = some (n, [])
+
+/-- what "Services in place" means -/
+theorem svcOk_iff (c : TCtx) (n : Net) :
+    SvcOk c n ↔ (c.disableGen = true ∨
+      (c.stableRev ≠ "" ∧ c.canaryRev ≠ "" ∧ n.canarySvc = some c.canaryRev ∧ n.stableSel.getD "" = c.stableRev)) := by
+  unfold SvcOk svcStep
+  by_cases hd : c.disableGen = true
+  · simp [hd]
+  · by_cases hs : c.stableRev = ""
+    · simp [hd, hs]
+    · by_cases hc : c.canaryRev = ""
+      · simp [hd, hs, hc]
+      · simp only [hd, hs, hc, or_self, if_false, Bool.false_eq_true, false_or, ne_eq, not_false_eq_true, true_and]
+        cases hcs : n.canarySvc with
+        | none =>
+          dsimp only
+          by_cases hst : n.stableSel.getD "" = c.stableRev <;> simp [hst]
+        | some r =>
+          dsimp only
+          by_cases hr : r = c.canaryRev
+          · subst hr
+            by_cases hst : n.stableSel.getD "" = c.stableRev
+            · simp [hst]
+            · simp [hst]
+          · by_cases hst : n.stableSel.getD "" = c.stableRev <;> simp [hr, hst]
+
+/-- the Service part always leaves the Services in place -/
+theorem svcStep_idem (c : TCtx) (n n2 : Net) (ws : List String) (h : svcStep c n = some (n2, ws)) : SvcOk c n2 := by
+  rw [svcOk_iff]
+  unfold svcStep at h
+  by_cases hd : c.disableGen = true
+  · exact Or.inl hd
+  · right
+    rw [if_neg hd] at h
+    by_cases hr : c.stableRev = "" ∨ c.canaryRev = ""
+    · rw [if_pos hr] at h; cases h
+    · rw [if_neg hr] at h
+      have hs : c.stableRev ≠ "" := fun he => hr (Or.inl he)
+      have hc : c.canaryRev ≠ "" := fun he => hr (Or.inr he)
+      refine ⟨hs, hc, ?_⟩
+      dsimp only at h
+      simp only [Option.some.injEq, Prod.mk.injEq] at h
+      obtain ⟨hn, _⟩ := h
+      subst hn
+      cases hcs : n.canarySvc with
+      | none =>
+        dsimp only
+        by_cases hst : n.stableSel.getD "" = c.stableRev
+        · simp [hst]
+        · simp [hst, hs]
+      | some r =>
+        dsimp only
+        by_cases hrr : r = c.canaryRev
+        · subst hrr
+          by_cases hst : n.stableSel.getD "" = c.stableRev
+          · simp [hst, hcs]
+          · simp [hst, hcs, hs]
+        · by_cases hst : n.stableSel.getD "" = c.stableRev
+          · simp [hrr, hst]
+          · simp [hrr, hst, hs]
+
+theorem svcOk_frame (c : TCtx) (n : Net) (ci : Option Nat) (h : SvcOk c n) : SvcOk c { n with canaryIng := ci } := by
+  rw [svcOk_iff] at h ⊢
+  exact h
+
+/-- with the Services in place the call is the provider step alone -/
+theorem doTR_of_svcOk (c : TCtx) (n : Net) (m : Mem) (w : Nat) (href : c.hasRef = true) (hw : c.weight = some w)
+    (hex : n.stableExists = true) (hl : c.lastUpdate ≠ .fresh) (hok : SvcOk c n) :
+    doTrafficRouting c n m = routeStep n m w := by
+  unfold doTrafficRouting
+  unfold SvcOk at hok
+  simp only [href, not_true_eq_false, if_false, hw, hex, hl, hok]
+  simp
+
+/-- one round always leaves the Services in place (and the stable Service / Ingress where they were) -/
+theorem stepNet_svcOk (c : TCtx) (n : Net) (w : Nat) (href : c.hasRef = true) (hw : c.weight = some w)
+    (hex : n.stableExists = true) (hl : c.lastUpdate ≠ .fresh) (hrev : c.disableGen = true ∨ (c.stableRev ≠ "" ∧ c.canaryRev ≠ "")) :
+    SvcOk c (stepNet c n) ∧ (stepNet c n).stableExists = true ∧ (stepNet c n).stableIngress = n.stableIngress := by
+  unfold stepNet doTrafficRouting
+  simp only [href, not_true_eq_false, if_false, hw, hex, hl]
+  cases hs : svcStep c n with
+  | none =>
+    exfalso
+    unfold svcStep at hs
+    rcases hrev with hd | ⟨h1, h2⟩
+    · simp [hd] at hs
+    · by_cases hd : c.disableGen = true
+      · simp [hd] at hs
+      · simp [hd, h1, h2] at hs
+  | some r =>
+    obtain ⟨n2, ws⟩ := r
+    have hok2 := svcStep_idem c n n2 ws hs
+    obtain ⟨f1, f2, f3⟩ := svcStep_frame c n n2 ws hs
+    dsimp only
+    by_cases hws : ws = []
+    · subst hws
+      have hn2 : n2 = n := (svcStep_nowrite c n n2 hs).1
+      subst hn2
+      simp only [ne_eq, not_true_eq_false, if_false]
+      unfold routeStep
+      dsimp only
+      split
+      · exact ⟨hok2, hex, rfl⟩
+      · exact ⟨svcOk_frame c n2 _ hok2, hex, rfl⟩
+    · simp only [ne_eq, hws, not_false_eq_true, if_true]
+      exact ⟨hok2, by rw [f2]; exact hex, f3⟩
+
+/-- the provider step converges in at most three rounds: create the canary Ingress, set the weight, verify -/
+theorem routeStep_converges (n : Net) (m : Mem) (w : Nat) (hing : n.stableIngress = true) :
+    (routeStep n m w).done = true ∨
+    (routeStep (routeStep n m w).net m w).done = true ∨
+    (routeStep (routeStep (routeStep n m w).net m w).net m w).done = true := by
+  unfold routeStep ensureRoutes
+  cases hci : n.canaryIng with
+  | none =>
+    by_cases hw0 : w = 0
+    · left; simp [hw0]
+    · right
+      by_cases h0 : (0 : Nat) = w
+      · exact absurd h0.symm hw0
+      · right
+        simp [hw0, hing, h0]
+  | some x =>
+    by_cases hx : x = w
+    · left; simp [hx]
+    · right; left
+      simp [hx]
+
+/-- **C07.iii (traffic routing converges)** — for every routing context with a route to manage, every network
+    state in which the stable Service and Ingress exist, and every grace memory: if the caller comes back
+    whenever its grace period has elapsed, `DoTrafficRouting` reports *done* after at most **four** further
+    rounds — there is no state from which it keeps rewriting the network. -/
+theorem doTR_converges (c : TCtx) (n : Net) (m : Mem) (w : Nat) (href : c.hasRef = true) (hw : c.weight = some w)
+    (hex : n.stableExists = true) (hing : n.stableIngress = true) (hl : c.lastUpdate ≠ .fresh)
+    (hrev : c.disableGen = true ∨ (c.stableRev ≠ "" ∧ c.canaryRev ≠ "")) :
+    ∃ k, k ≤ 3 ∧ (doTrafficRouting c (iterNet c (k + 1) n) m).done = true := by
+  obtain ⟨ok1, ex1, ing1⟩ := stepNet_svcOk c n w href hw hex hl hrev
+  rw [hing] at ing1
+  -- from the first round on, each round is the provider step
+  have hstep : ∀ n' : Net, SvcOk c n' → n'.stableExists = true → stepNet c n' = (routeStep n' Mem.empty w).net := by
+    intro n' hk he
+    unfold stepNet
+    rw [doTR_of_svcOk c n' Mem.empty w href hw he hl hk]
+  have hkeep : ∀ n' : Net, SvcOk c n' → n'.stableExists = true →
+      SvcOk c (routeStep n' Mem.empty w).net ∧ (routeStep n' Mem.empty w).net.stableExists = true ∧
+      (routeStep n' Mem.empty w).net.stableIngress = n'.stableIngress := by
+    intro n' hk he
+    have := stepNet_svcOk c n' w href hw he hl hrev
+    rw [hstep n' hk he] at this
+    exact this
+  have hnet_m : ∀ (n' : Net) (m1 m2 : Mem), (routeStep n' m1 w).net = (routeStep n' m2 w).net ∧
+      (routeStep n' m1 w).done = (routeStep n' m2 w).done := by
+    intro n' m1 m2; unfold routeStep; dsimp only; split <;> exact ⟨rfl, rfl⟩
+  generalize hn1 : stepNet c n = n1 at ok1 ex1 ing1
+  obtain ⟨ok2, ex2, ing2⟩ := hkeep n1 ok1 ex1
+  obtain ⟨ok3, ex3, ing3⟩ := hkeep _ ok2 ex2
+  rcases routeStep_converges n1 Mem.empty w ing1 with h | h | h
+  · refine ⟨0, by omega, ?_⟩
+    show (doTrafficRouting c (stepNet c n) m).done = true
+    rw [hn1, doTR_of_svcOk c n1 m w href hw ex1 hl ok1, (hnet_m n1 m Mem.empty).2]; exact h
+  · refine ⟨1, by omega, ?_⟩
+    show (doTrafficRouting c (stepNet c (stepNet c n)) m).done = true
+    rw [hn1, hstep n1 ok1 ex1, doTR_of_svcOk c _ m w href hw ex2 hl ok2, (hnet_m _ m Mem.empty).2]; exact h
+  · refine ⟨2, by omega, ?_⟩
+    show (doTrafficRouting c (stepNet c (stepNet c (stepNet c n))) m).done = true
+    rw [hn1, hstep n1 ok1 ex1, hstep _ ok2 ex2, doTR_of_svcOk c _ m w href hw ex3 hl ok3, (hnet_m _ m Mem.empty).2]; exact h
+
+/-! ### C05 / C07 — the clean-up of the traffic routing converges -/
+
+/-- time passes: every grace period that was running has elapsed when the caller comes back -/
+def tickE : Exp → Exp
+  | .fresh => .elapsed
+  | e => e
+def tick (m : Mem) : Mem :=
+  ⟨tickE m.patchService, tickE m.restoreService, tickE m.restoreGateway, tickE m.removeCanaryService, tickE m.updateRoute⟩
+
+/-- no grace period is still running -/
+def NoFresh (m : Mem) : Prop := m.restoreService ≠ .fresh ∧ m.restoreGateway ≠ .fresh ∧ m.removeCanaryService ≠ .fresh
+
+theorem tickE_ne_fresh (e : Exp) : tickE e ≠ .fresh := by cases e <;> simp [tickE]
+theorem tick_noFresh (m : Mem) : NoFresh (tick m) := ⟨tickE_ne_fresh _, tickE_ne_fresh _, tickE_ne_fresh _⟩
+
+def expW : Exp → Nat
+  | .none => 0
+  | _ => 1
+
+/-- what is left to clean up, weighted so that every round that is not done lowers it -/
+def leftover (c : TCtx) (n : Net) (m : Mem) : Nat :=
+  (if n.stableExists = true ∧ c.hasRevKey = true ∧ n.stableSel.getD "" ≠ "" then 2 else 0) +
+  (if n.canaryIng.isSome = true then 2 else 0) +
+  (if c.disableGen = false ∧ n.canarySvc.isSome = true then 2 else 0) +
+  expW m.restoreService + expW m.restoreGateway + expW m.removeCanaryService
+
+theorem expW_tick_le (e : Exp) : expW (tickE e) ≤ expW e := by cases e <;> simp [expW, tickE]
+theorem expW_le_one (e : Exp) : expW e ≤ 1 := by cases e <;> simp [expW]
+
+/-- `runGrace` on a memory without running periods: modified → retry and one unit pending; elapsed → cleared;
+    none → nothing -/
+theorem runGrace_nofresh (g : Nat) (e : Exp) (md : Bool) (hg : g ≠ 0) (he : e ≠ .fresh) :
+    (md = true → runGrace g e md = (.fresh, true)) ∧
+    (md = false → (runGrace g e md).2 = false ∧ (runGrace g e md).1 = .none) := by
+  unfold runGrace
+  simp only [hg, if_false]
+  constructor
+  · intro h; simp [h]
+  · intro h; simp only [h, Bool.false_eq_true, if_false]; cases e <;> simp_all
+
+/-- `RestoreStableService` on a memory without running periods -/
+theorem rs_round (c : TCtx) (n : Net) (m : Mem) (href : c.hasRef = true) (hg : c.grace ≠ 0) (hm : m.restoreService ≠ .fresh) :
+    let r := restoreStableService c n m
+    r.err = false ∧ r.net.canaryIng = n.canaryIng ∧ r.net.canarySvc = n.canarySvc ∧ r.net.stableExists = n.stableExists ∧
+    r.mem.restoreGateway = m.restoreGateway ∧ r.mem.removeCanaryService = m.removeCanaryService ∧
+    ((n.stableExists = true ∧ c.hasRevKey = true ∧ n.stableSel.getD "" ≠ "") →
+      r.done = true ∧ r.net.stableSel = none ∧ r.mem.restoreService = .fresh) ∧
+    (¬ (n.stableExists = true ∧ c.hasRevKey = true ∧ n.stableSel.getD "" ≠ "") →
+      r.done = false ∧ r.net = n ∧ (n.stableExists = true → r.mem.restoreService = .none) ∧
+      (n.stableExists = false → r.mem = m)) := by
+  unfold restoreStableService
+  simp only [href, not_true_eq_false, if_false]
+  by_cases hex : n.stableExists = true
+  · simp only [hex, not_true_eq_false, if_false, true_and]
+    by_cases hk : c.hasRevKey = true
+    · by_cases hs : n.stableSel.getD "" = ""
+      · have := (runGrace_nofresh c.grace m.restoreService false hg hm).2 rfl
+        simp [hk, hs, this.1, this.2, hex]
+      · have := (runGrace_nofresh c.grace m.restoreService true hg hm).1 rfl
+        simp [hk, hs, this]
+    · have := (runGrace_nofresh c.grace m.restoreService false hg hm).2 rfl
+      simp [hk, this.1, this.2, hex]
+  · simp [hex]
+
+/-- `RestoreGateway` on a memory without running periods -/
+theorem rg_round (c : TCtx) (n : Net) (m : Mem) (href : c.hasRef = true) (hg : c.grace ≠ 0) (hm : m.restoreGateway ≠ .fresh) :
+    let r := restoreGateway c n m
+    r.err = false ∧ r.net.stableSel = n.stableSel ∧ r.net.canarySvc = n.canarySvc ∧ r.net.stableExists = n.stableExists ∧
+    r.net.canaryIng = none ∧
+    r.mem.restoreService = m.restoreService ∧ r.mem.removeCanaryService = m.removeCanaryService ∧
+    (n.canaryIng.isSome = true → r.done = true ∧ r.mem.restoreGateway = .fresh) ∧
+    (n.canaryIng.isSome = false → r.done = false ∧ r.mem.restoreGateway = .none) := by
+  unfold restoreGateway finaliseGw
+  simp only [href, not_true_eq_false, if_false]
+  cases hci : n.canaryIng with
+  | none =>
+    have := (runGrace_nofresh c.grace m.restoreGateway false hg hm).2 rfl
+    simp [this.1, this.2]
+  | some x =>
+    have := (runGrace_nofresh c.grace m.restoreGateway true hg hm).1 rfl
+    simp [this]
+
+/-- `RemoveCanaryService` on a memory without running periods -/
+theorem rc_round (c : TCtx) (n : Net) (m : Mem) (href : c.hasRef = true) (hg : c.grace ≠ 0) (hm : m.removeCanaryService ≠ .fresh) :
+    let r := removeCanaryService c n m
+    r.err = false ∧ r.net.stableSel = n.stableSel ∧ r.net.canaryIng = n.canaryIng ∧ r.net.stableExists = n.stableExists ∧
+    r.mem.restoreService = m.restoreService ∧ r.mem.restoreGateway = m.restoreGateway ∧
+    (c.disableGen = true → r.done = false ∧ r.net = n ∧ r.mem = m) ∧
+    (c.disableGen = false → r.net.canarySvc = none ∧
+      (n.canarySvc.isSome = true → r.done = true ∧ r.mem.removeCanaryService = .fresh) ∧
+      (n.canarySvc.isSome = false → r.done = false ∧ r.mem.removeCanaryService = .none)) := by
+  unfold removeCanaryService
+  simp only [href, not_true_eq_false, if_false]
+  by_cases hd : c.disableGen = true
+  · simp [hd]
+  · simp only [hd, if_false]
+    cases hcs : n.canarySvc with
+    | none =>
+      have := (runGrace_nofresh c.grace m.removeCanaryService false hg hm).2 rfl
+      simp [this.1, this.2]
+    | some x =>
+      have := (runGrace_nofresh c.grace m.removeCanaryService true hg hm).1 rfl
+      simp [this]
+
+def pinW (c : TCtx) (n : Net) : Nat := if n.stableExists = true ∧ c.hasRevKey = true ∧ n.stableSel.getD "" ≠ "" then 2 else 0
+def ingW (n : Net) : Nat := if n.canaryIng.isSome = true then 2 else 0
+def svcW (c : TCtx) (n : Net) : Nat := if c.disableGen = false ∧ n.canarySvc.isSome = true then 2 else 0
+
+theorem leftover_eq (c : TCtx) (n : Net) (m : Mem) :
+    leftover c n m = pinW c n + ingW n + svcW c n + expW m.restoreService + expW m.restoreGateway + expW m.removeCanaryService := rfl
+
+theorem pinW_congr (c : TCtx) (n n' : Net) (h1 : n'.stableExists = n.stableExists) (h2 : n'.stableSel = n.stableSel) :
+    pinW c n' = pinW c n := by unfold pinW; rw [h1, h2]
+theorem ingW_congr (n n' : Net) (h : n'.canaryIng = n.canaryIng) : ingW n' = ingW n := by unfold ingW; rw [h]
+theorem svcW_congr (c : TCtx) (n n' : Net) (h : n'.canarySvc = n.canarySvc) : svcW c n' = svcW c n := by unfold svcW; rw [h]
+
+/-- **one round of the clean-up makes progress**: it reports done, or strictly less is left afterwards -/
+theorem fin_round_progress (c : TCtx) (n : Net) (m : Mem) (href : c.hasRef = true) (hg : c.grace ≠ 0) (hm : NoFresh m) :
+    (finalisingTrafficRouting c n m).err = false ∧
+    ((finalisingTrafficRouting c n m).done = true ∨
+     leftover c (finalisingTrafficRouting c n m).net (tick (finalisingTrafficRouting c n m).mem) < leftover c n m) := by
+  obtain ⟨hm1, hm2, hm3⟩ := hm
+  obtain ⟨e1, a1, a2, a3, a4, a5, p1, p2⟩ := rs_round c n m href hg hm1
+  generalize hr1 : restoreStableService c n m = r1 at *
+  unfold finalisingTrafficRouting
+  simp only [href, not_true_eq_false, if_false, hr1]
+  by_cases hpin : n.stableExists = true ∧ c.hasRevKey = true ∧ n.stableSel.getD "" ≠ ""
+  · -- the stable Service is un-pinned in this round
+    obtain ⟨d1, s1, x1⟩ := p1 hpin
+    simp only [e1, d1, Bool.false_eq_true, false_or, if_true]
+    refine ⟨trivial, ?_⟩
+    rw [leftover_eq, leftover_eq]
+    have hA : pinW c r1.net = 0 := by unfold pinW; rw [s1]; simp
+    have hA0 : pinW c n = 2 := by unfold pinW; rw [if_pos hpin]
+    have hB := ingW_congr n r1.net a1
+    have hC := svcW_congr c n r1.net a2
+    have hx : expW (tick r1.mem).restoreService = 1 := by
+      show expW (tickE r1.mem.restoreService) = 1; rw [x1]; rfl
+    have hy : expW (tick r1.mem).restoreGateway ≤ expW m.restoreGateway := by
+      show expW (tickE r1.mem.restoreGateway) ≤ _; rw [a4]; exact expW_tick_le _
+    have hz : expW (tick r1.mem).removeCanaryService ≤ expW m.removeCanaryService := by
+      show expW (tickE r1.mem.removeCanaryService) ≤ _; rw [a5]; exact expW_tick_le _
+    omega
+  · obtain ⟨d1, s1, x1, x1'⟩ := p2 hpin
+    simp only [e1, d1, Bool.false_eq_true, or_self, if_false]
+    have hm2' : r1.mem.restoreGateway ≠ .fresh := by rw [a4]; exact hm2
+    have hm3' : r1.mem.removeCanaryService ≠ .fresh := by rw [a5]; exact hm3
+    -- what the first call leaves in the memory
+    have hrs : expW r1.mem.restoreService ≤ expW m.restoreService := by
+      by_cases hex : n.stableExists = true
+      · rw [x1 hex]; simp [expW]
+      · rw [x1' (by simpa using hex)]; exact Nat.le_refl _
+    obtain ⟨e2, b1, b2, b3, b4, b5, b6, q1, q2⟩ := rg_round c r1.net r1.mem href hg hm2'
+    generalize hr2 : restoreGateway c r1.net r1.mem = r2 at *
+    by_cases hing : r1.net.canaryIng.isSome = true
+    · obtain ⟨d2, y2⟩ := q1 hing
+      simp only [e2, d2, Bool.false_eq_true, false_or, if_true]
+      refine ⟨trivial, ?_⟩
+      rw [leftover_eq, leftover_eq]
+      have hA : pinW c r2.net = pinW c n := by
+        rw [pinW_congr c r1.net r2.net b3 b1, s1]
+      have hB : ingW r2.net = 0 := by unfold ingW; rw [b4]; simp
+      have hB0 : ingW n = 2 := by unfold ingW; rw [← a1, if_pos hing]
+      have hC : svcW c r2.net = svcW c n := by rw [svcW_congr c r1.net r2.net b2, svcW_congr c n r1.net a2]
+      have hx : expW (tick r2.mem).restoreService ≤ expW m.restoreService := by
+        show expW (tickE r2.mem.restoreService) ≤ _; rw [b5]; exact Nat.le_trans (expW_tick_le _) hrs
+      have hy : expW (tick r2.mem).restoreGateway = 1 := by
+        show expW (tickE r2.mem.restoreGateway) = 1; rw [y2]; rfl
+      have hz : expW (tick r2.mem).removeCanaryService ≤ expW m.removeCanaryService := by
+        show expW (tickE r2.mem.removeCanaryService) ≤ _; rw [b6, a5]; exact expW_tick_le _
+      omega
+    · have hing' : r1.net.canaryIng.isSome = false := by simpa using hing
+      obtain ⟨d2, y2⟩ := q2 hing'
+      simp only [e2, d2, Bool.false_eq_true, or_self, if_false]
+      have hm3'' : r2.mem.removeCanaryService ≠ .fresh := by rw [b6]; exact hm3'
+      obtain ⟨e3, c1, c2, c3, c4, c5, t1, t2⟩ := rc_round c r2.net r2.mem href hg hm3''
+      generalize hr3 : removeCanaryService c r2.net r2.mem = r3 at *
+      by_cases hd : c.disableGen = true
+      · obtain ⟨d3, _, _⟩ := t1 hd
+        simp only [e3, d3, Bool.false_eq_true, or_self, if_false]
+        exact ⟨trivial, Or.inl trivial⟩
+      · have hd' : c.disableGen = false := by simpa using hd
+        obtain ⟨u1, u2, u3⟩ := t2 hd'
+        by_cases hsvc : r2.net.canarySvc.isSome = true
+        · obtain ⟨d3, z3⟩ := u2 hsvc
+          simp only [e3, d3, Bool.false_eq_true, false_or, if_true]
+          refine ⟨trivial, ?_⟩
+          rw [leftover_eq, leftover_eq]
+          have hA : pinW c r3.net = pinW c n := by
+            rw [pinW_congr c r2.net r3.net c3 c1, pinW_congr c r1.net r2.net b3 b1, s1]
+          have hB : ingW r3.net ≤ ingW n := by
+            rw [ingW_congr r2.net r3.net c2]; unfold ingW; rw [b4]; simp
+          have hC : svcW c r3.net = 0 := by unfold svcW; rw [u1]; simp
+          have hC0 : svcW c n = 2 := by
+            unfold svcW; rw [← a2, ← b2, if_pos ⟨hd', hsvc⟩]
+          have hx : expW (tick r3.mem).restoreService ≤ expW m.restoreService := by
+            show expW (tickE r3.mem.restoreService) ≤ _; rw [c4, b5]; exact Nat.le_trans (expW_tick_le _) hrs
+          have hy : expW (tick r3.mem).restoreGateway ≤ expW m.restoreGateway := by
+            show expW (tickE r3.mem.restoreGateway) ≤ _; rw [c5, y2]; simp [tickE, expW]
+          have hz : expW (tick r3.mem).removeCanaryService = 1 := by
+            show expW (tickE r3.mem.removeCanaryService) = 1; rw [z3]; rfl
+          omega
+        · have hsvc' : r2.net.canarySvc.isSome = false := by simpa using hsvc
+          obtain ⟨d3, _⟩ := u3 hsvc'
+          simp only [e3, d3, Bool.false_eq_true, or_self, if_false]
+          exact ⟨trivial, Or.inl trivial⟩
+
+/-- `k` rounds of clean-up, time passing after each -/
+def finIter (c : TCtx) : Nat → Net × Mem → Net × Mem
+  | 0, s => s
+  | k + 1, s => finIter c k ((finalisingTrafficRouting c s.1 s.2).net, tick (finalisingTrafficRouting c s.1 s.2).mem)
+
+theorem finalising_converges_aux (c : TCtx) (href : c.hasRef = true) (hg : c.grace ≠ 0) :
+    ∀ (b : Nat) (n : Net) (m : Mem), leftover c n m ≤ b → NoFresh m →
+      ∃ k, k ≤ b ∧ (finalisingTrafficRouting c (finIter c k (n, m)).1 (finIter c k (n, m)).2).done = true := by
+  intro b
+  induction b with
+  | zero =>
+    intro n m hb hm
+    obtain ⟨_, hp⟩ := fin_round_progress c n m href hg hm
+    rcases hp with hd | hlt
+    · exact ⟨0, Nat.le_refl _, hd⟩
+    · omega
+  | succ b ih =>
+    intro n m hb hm
+    obtain ⟨_, hp⟩ := fin_round_progress c n m href hg hm
+    rcases hp with hd | hlt
+    · exact ⟨0, Nat.zero_le _, hd⟩
+    · obtain ⟨k, hk, hdone⟩ := ih (finalisingTrafficRouting c n m).net (tick (finalisingTrafficRouting c n m).mem) (by omega) (tick_noFresh _)
+      exact ⟨k + 1, by omega, hdone⟩
+
+/-- **C05 / C07 (the traffic clean-up converges)** — for every routing context, every network state and every
+    grace memory without a running period (e.g. the empty memory after a restart): if the caller comes back
+    whenever its grace period has elapsed, `FinalisingTrafficRouting` reports *done* after at most
+    `leftover ≤ 9` rounds, never an error — and by `finalising_order` / `finalising_done_clean` *done* means the
+    stable Service is un-pinned, the canary route withdrawn and the canary Service removed, in that order. -/
+theorem finalising_converges (c : TCtx) (n : Net) (m : Mem) (href : c.hasRef = true) (hg : c.grace ≠ 0) (hm : NoFresh m) :
+    ∃ k, k ≤ 9 ∧ (finalisingTrafficRouting c (finIter c k (n, m)).1 (finIter c k (n, m)).2).done = true := by
+  have hle : leftover c n m ≤ 9 := by
+    unfold leftover
+    have := expW_le_one m.restoreService
+    have := expW_le_one m.restoreGateway
+    have := expW_le_one m.removeCanaryService
+    split <;> split <;> split <;> omega
+  obtain ⟨k, hk, hd⟩ := finalising_converges_aux c href hg (leftover c n m) n m (Nat.le_refl _) hm
+  exact ⟨k, by omega, hd⟩
+
+/-- without a grace period the whole clean-up happens in the first call -/
+theorem finalising_immediate (c : TCtx) (n : Net) (m : Mem) (hg : c.grace = 0) :
+    (finalisingTrafficRouting c n m).done = true ∧ (finalisingTrafficRouting c n m).err = false := by
+  unfold finalisingTrafficRouting restoreStableService restoreGateway removeCanaryService runGrace finaliseGw
+  by_cases href : c.hasRef = true
+  · by_cases hex : n.stableExists = true
+    · by_cases hd : c.disableGen = true <;> simp [href, hex, hd, hg]
+    · by_cases hd : c.disableGen = true <;> simp [href, hex, hd, hg]
+  · simp [href]
+
+/-! ### non-vacuity (tests on literals: the hypotheses of the theorems above are met by ordinary states) -/
+
+def exCtx : TCtx :=
+  { hasRef := true, grace := 3, weight := some 20, disableGen := false, stableRev := "v1", canaryRev := "v2",
+    lastUpdate := .elapsed }
+def exRouted : Net :=
+  { stableExists := true, stableSel := some "v1", canarySvc := some "v2", stableIngress := true, canaryIng := some 20 }
+def exFresh : Net :=
+  { stableExists := true, stableSel := none, canarySvc := none, stableIngress := true, canaryIng := none }
+
+/-- a routed step reports done (hypothesis of `doTR_done` / `done_is_fixed_point`) -/
+example : (doTrafficRouting exCtx exRouted Mem.empty).done = true := by decide
+/-- from a fresh network the first call is not done and creates the canary Service before any route -/
+example : (doTrafficRouting exCtx exFresh Mem.empty).done = false ∧
+    (doTrafficRouting exCtx exFresh Mem.empty).net.canaryIng = none := by decide
+/-- finalising a routed network takes several rounds: the first one only un-pins the stable Service -/
+example : (finalisingTrafficRouting exCtx exRouted Mem.empty).done = false ∧
+    (finalisingTrafficRouting exCtx exRouted Mem.empty).writes = ["unpinStable"] := by decide
+/-- with the grace period off everything is restored in one call, in the proved order -/
+example : (finalisingTrafficRouting { exCtx with grace := 0 } exRouted Mem.empty).writes =
+    ["unpinStable", "deleteCanaryIngress", "deleteCanarySvc"] := by decide
+
 end RV.Props.Traffic
